@@ -199,6 +199,32 @@ func castleish(rng *hx.Rng) *posgen.Pos {
 		}
 	}
 	stm := Color(rng.Intn(2))
+	// the OTHER king next to the mover's castling path (g2 h2 / a2 b2 c2, g7 h7 / a7 b7 c7): the only attacker
+	// of a crossing square is then a king (seeded change C05-G tested the enemy king against one square of the
+	// path only); it gives up its own castling rights
+	if rng.Chance(0.25) {
+		var cands []int
+		var home int
+		var drop string
+		if stm == White {
+			cands, home, drop = []int{14, 15, 8, 9, 10, 22, 23}, int(E8), "kq"
+		} else {
+			cands, home, drop = []int{54, 55, 48, 49, 50, 46, 47}, int(E1), "KQ"
+		}
+		t := cands[rng.Intn(len(cands))]
+		kc := sq[home]
+		sq[home] = 0
+		sq[t] = kc
+		castles = strings.Map(func(r rune) rune {
+			if strings.ContainsRune(drop, r) {
+				return -1
+			}
+			return r
+		}, castles)
+		if castles == "" {
+			castles = "-"
+		}
+	}
 	ep := "-"
 	if rng.Chance(0.35) {
 		f := rng.Intn(8)
